@@ -2,6 +2,7 @@ import abc
 import asyncio
 import copy
 import logging
+import numbers
 import os
 import pathlib
 import time
@@ -54,9 +55,10 @@ class Search(abc.ABC):
         self._problem = copy.deepcopy(problem)
 
         self._seed = None
-        if type(random_state) is int:
-            self._seed = random_state
-            self._random_state = np.random.RandomState(random_state)
+        if isinstance(random_state, numbers.Integral) and not isinstance(random_state, bool):
+            # also NumPy integer types (np.int64, ...), which used to be silently ignored
+            self._seed = int(random_state)
+            self._random_state = np.random.RandomState(self._seed)
         elif isinstance(random_state, np.random.RandomState):
             self._random_state = random_state
         else:
